@@ -559,8 +559,20 @@ def _iter(eng, it):
     return eng.as_seq(it)
 
 
+def _sorted(eng, it, key=None, reverse=False):
+    s = eng.as_seq(it)
+    if s.tail is not None:
+        raise Unsupported("sorted of symbolic-length sequence")
+    ks = [eng.call(key, [x], {}) if key is not None else x for x in s.items]
+    if not all(isinstance(k, (str, int)) and not isinstance(k, bool) for k in ks) and not all(isinstance(k, str) for k in ks):
+        raise Unsupported("sorted with symbolic keys")
+    order = sorted(range(len(ks)), key=lambda i: ks[i], reverse=bool(reverse))
+    return STup([s.items[i] for i in order], None, True)
+
+
 def base_globals():
     g = {
+        "sorted": Builtin("sorted", _sorted),
         "isinstance": Builtin("isinstance", _isinstance),
         "len": Builtin("len", _len),
         "tuple": TupleType("tuple", _tuple),
